@@ -3,6 +3,22 @@
 //! `FloatLin*` propagators, driven directly and compared BIT-EXACTLY with the Lean model
 //! (`fl.*` ops; every f64 travels as the decimal value of `to_bits()`, `nan` for NaNs), plus
 //! exact-arithmetic oracles (module `ex`) and an API-level oracle stream (`#flapi` lines).
+//!
+//! C13 on float / mixed views (`oracle_c13_mm`, `oracle_c13_ctx`): the exact affine form
+//! f(x) = a*x + b of a view of depth <= 3 (Next/Prev over a float variable = +- one step of the
+//! underlying interval, on integer views +-1, on a float-typed view without a float interval the
+//! identity; Times with a zero scale is a constant).  Tolerances: `view.mm` must equal min/max of f
+//! over the bounds up to  (sum over the Next/Prev nodes of |outer scale|*step)  [`next`/`prev` clamp
+//! at the interval ends]  +  2^-48*(|a|*max|x| + |b|)  [f64 rounding, 0 when everything is an
+//! integer];  `ctx.min/max V m` on a float variable must keep every x whose image is more than
+//! |a|*step (+ the same rounding allowance) inside the bound and must not fail if such an x exists;
+//! on an integer variable exactly the values whose image satisfies the bound remain (values whose
+//! image is within the rounding allowance of the bound are free when a ValF takes part).
+//! Which arm of every `match (bound, offset)` of views.rs is walked is recorded as `arm.*` stats.
+//! Tags: `nextprev-clamps-bound-to-domain`, `prev-int-bound-on-float-view-shifts-by-one`,
+//! `timespos-int-division-on-float-view` (C13); `float-row-lowered-to-intlin` (C06/C07, `#flapi`
+//! fluent rows `ex ...` with repeated variables / literals of both kinds on both sides; the arms of
+//! add_/subtract_coefficients they exercise are recorded as `api.arm.*`).
 use crate::out::{guarded, Out};
 use crate::rng::Rng;
 use selen::constraints::props::{PropId, Propagators};
@@ -391,6 +407,7 @@ macro_rules! flevel {
 }
 flevel!(lvl1, lvl0);
 flevel!(lvl2, lvl1);
+flevel!(lvl3, lvl2);
 
 // ---------------------------------------------------------------------------------------------
 // the case state
@@ -693,7 +710,12 @@ fn oracle_ctx_float(out: &mut Out, l: usize, is_min: bool, old: (f64, f64, f64),
             if w_exists {
                 let kept = exf(nlo).le(&w) && w.le(&exf(nhi));
                 if !kept {
-                    out.fail(l, "C12", "-", format!("{what}: removed {:e} (more than one step inside the bound), new interval [{nlo:e},{nhi:e}]", w.approx()));
+                    // the excess over "one step" is at most 4 ulps of the largest magnitude involved:
+                    // IEEE rounding of `ceil(m/step)*step` (same nature as `fi-grid-rounding-ulp`)
+                    let ulp4 = exf(4.0 * UlpUtils::ulp(lo.abs().max(hi.abs()).max(m.abs())));
+                    let excess = if is_min { exf(nlo).sub(&w) } else { w.sub(&exf(nhi)) };
+                    let tag = if excess.le(&ulp4) { "fi-grid-rounding-ulp" } else { "-" };
+                    out.fail(l, "C12", tag, format!("{what}: removed {:e} (more than one step inside the bound), new interval [{nlo:e},{nhi:e}]", w.approx()));
                 }
             }
         }
@@ -750,7 +772,7 @@ fn apply_ctx(fc: &mut FCase, out: &mut Out, line: &str, is_min: bool, v: &FVS, m
     }
     let before = fc.states();
     let ids = fc.ids.clone();
-    let r = guarded(|| lvl2(v, &ids, K { vars: &mut fc.vars, is_min, m: m.val() }));
+    let r = guarded(|| lvl3(v, &ids, K { vars: &mut fc.vars, is_min, m: m.val() }));
     let Some((res, events)) = r else {
         let l = out.emit(line, "panic");
         out.fail(l, "C17", "-", format!("panic in {line}"));
@@ -767,6 +789,7 @@ fn apply_ctx(fc: &mut FCase, out: &mut Out, line: &str, is_min: bool, v: &FVS, m
         check_never_widens(out, l, line, &before, &after);
         events_vs_changes(out, l, line, fc, &before, &after, &events);
     }
+    oracle_c13_ctx(out, l, line, is_min, v, m, &before, &after, res.is_some());
     // C12 oracle: plain variable
     if let FVS::V(x) = v {
         match (&before[*x], m) {
@@ -816,14 +839,366 @@ fn apply_mm(fc: &mut FCase, out: &mut Out, line: &str, v: &FVS) {
         }
     }
     let ids = fc.ids.clone();
-    match guarded(|| lvl2(v, &ids, K { vars: &mut fc.vars })) {
+    let before = fc.states();
+    match guarded(|| lvl3(v, &ids, K { vars: &mut fc.vars })) {
         None => {
             let l = out.emit(line, "panic");
             out.fail(l, "C17", "-", format!("panic in {line}"));
         }
         Some((a, b, f)) => {
-            out.emit(line, format!("min={} max={} float={}", FV::show(a), FV::show(b), crate::out::b(f)));
+            let l = out.emit(line, format!("min={} max={} float={}", FV::show(a), FV::show(b), crate::out::b(f)));
+            oracle_c13_mm(out, l, line, v, &before, a, b, f);
         }
+    }
+}
+
+// ---------------------------------------------------------------------------------------------
+// C13 oracle for float / mixed views: the exact affine form f(x) = a*x + b of a view
+// ---------------------------------------------------------------------------------------------
+
+/// exact affine form of a view over the current store
+struct Aff {
+    a: Ex,
+    b: Ex,
+    /// what the Next/Prev nodes over a float variable contribute (each `|outer scale| * step`):
+    /// `next`/`prev` clamp at the interval ends, so min/max may fall short by up to this much
+    t: Ex,
+    var: Option<usize>,
+    /// `result_type == Float`
+    is_float: bool,
+    /// a ValF constant took part (f64 rounding happens in the code)
+    float_const: bool,
+    /// a Next/Prev over a float variable sits above a non-identity view: `FloatInterval::next/prev`
+    /// then clamps a view-space value against the variable's own bounds
+    clamp_space: bool,
+}
+
+/// is there, below a Next (`up`) / Prev node, anything but the plain variable and further steps in
+/// the SAME direction?  (`FloatInterval::next/prev` clamp the pushed-down bound to the variable's
+/// current [min, max]; that is harmless only directly above the variable)
+fn aff_contains_transform(v: &FVS, up: bool) -> bool {
+    match v {
+        FVS::C(_) | FVS::V(_) => false,
+        FVS::Next(x) => !up || aff_contains_transform(x, up),
+        FVS::Prev(x) => up || aff_contains_transform(x, up),
+        _ => true,
+    }
+}
+
+fn affine(v: &FVS, st: &[VState], out: &mut Out) -> Option<Aff> {
+    let fin = |k: &FV| -> Option<Ex> { let x = k.as_f64(); if x.is_finite() { Some(exf(x)) } else { None } };
+    Some(match v {
+        FVS::C(k) => Aff { a: Ex::zero(), b: fin(k)?, t: Ex::zero(), var: None, is_float: matches!(k, FV::F(_)), float_const: matches!(k, FV::F(_)), clamp_space: false },
+        FVS::V(i) => {
+            let isf = match &st[*i] {
+                VState::F(lo, hi, s) => { if !valid_iv(*lo, *hi, *s) { return None; } true }
+                VState::I(d) => { if d.is_empty() { return None; } false }
+            };
+            Aff { a: Ex::from_i64(1), b: Ex::zero(), t: Ex::zero(), var: Some(*i), is_float: isf, float_const: false, clamp_space: false }
+        }
+        FVS::Opp(x) => { let f = affine(x, st, out)?; Aff { a: f.a.neg(), b: f.b.neg(), ..f } }
+        FVS::Plus(k, x) => {
+            let f = affine(x, st, out)?;
+            let kf = matches!(k, FV::F(_));
+            Aff { b: f.b.add(&fin(k)?), is_float: f.is_float || kf, float_const: f.float_const || kf, ..f }
+        }
+        FVS::TPos(k, x) | FVS::TNeg(k, x) | FVS::Times(k, x) => {
+            let kk = fin(k)?;
+            if matches!(v, FVS::Times(..)) && kk.is_zero() {
+                // Times::ZeroI / ZeroF: the constant 0 of the scale's kind
+                return Some(Aff { a: Ex::zero(), b: Ex::zero(), t: Ex::zero(), var: None, is_float: matches!(k, FV::F(_)), float_const: false, clamp_space: false });
+            }
+            let f = affine(x, st, out)?;
+            let kf = matches!(k, FV::F(_));
+            Aff { a: f.a.mul(&kk), b: f.b.mul(&kk), t: f.t.mul(&kk.abs()), is_float: f.is_float || kf, float_const: f.float_const || kf, ..f }
+        }
+        FVS::Next(x) | FVS::Prev(x) => {
+            let f = affine(x, st, out)?;
+            let up = matches!(v, FVS::Next(_));
+            let step = match f.var { Some(u) => match &st[u] { VState::F(_, _, s) => Some(*s), _ => None }, None => None };
+            match step {
+                Some(s) => {
+                    let d = if up { exf(s) } else { exf(s).neg() };
+                    Aff { b: f.b.add(&d), t: f.t.add(&exf(s)), clamp_space: f.clamp_space || aff_contains_transform(x, up), ..f }
+                }
+                None if !f.is_float => Aff { b: f.b.add(&Ex::from_i64(if up { 1 } else { -1 })), ..f },
+                None => {
+                    // a float-typed view without a float interval ("no step size"): identity
+                    out.stat("c13.nextprev-on-float-view-without-step.identity");
+                    f
+                }
+            }
+        }
+    })
+}
+
+/// f64 rounding allowance in the value space of the view: 2^-48 * (|a|*max|x| + |b| + |m|)
+fn c13_rho(f: &Aff, xmag: f64, m: f64) -> Ex {
+    if !f.float_const && !f.is_float && m.fract() == 0.0 {
+        return Ex::zero();
+    }
+    let mag = f.a.abs().mul(&exf(xmag)).add(&f.b.abs()).add(&exf(m.abs()));
+    mag.scale2(-48)
+}
+
+fn val_ex(v: Val) -> Option<Ex> {
+    match v {
+        Val::ValI(i) => Some(Ex::from_i64(i as i64)),
+        Val::ValF(x) if x.is_finite() => Some(exf(x)),
+        _ => None,
+    }
+}
+
+fn c13_tag(f: &Aff) -> &'static str {
+    if f.clamp_space { "nextprev-clamps-bound-to-domain" } else { "-" }
+}
+
+/// which arms of the `match (base, offset)` blocks of `min_raw` / `max_raw` are evaluated; returns
+/// whether the value is a ValF
+fn c13_raw_arm_stats(out: &mut Out, v: &FVS, st: &[VState]) -> bool {
+    let kk = |b: bool, k: &FV| format!("{}{}", if b { "F" } else { "I" }, if matches!(k, FV::F(_)) { "F" } else { "I" });
+    match v {
+        FVS::C(k) => matches!(k, FV::F(_)),
+        FVS::V(i) => matches!(st[*i], VState::F(..)),
+        FVS::Opp(x) => { let b = c13_raw_arm_stats(out, x, st); out.stat(&format!("arm.opp.raw.{}", if b { "F" } else { "I" })); b }
+        FVS::Plus(k, x) => { let b = c13_raw_arm_stats(out, x, st); out.stat(&format!("arm.plus.raw.{}", kk(b, k))); b || matches!(k, FV::F(_)) }
+        FVS::TPos(k, x) | FVS::TNeg(k, x) => { let b = c13_raw_arm_stats(out, x, st); out.stat(&format!("arm.tpos.raw.{}", kk(b, k))); b || matches!(k, FV::F(_)) }
+        FVS::Times(k, x) => {
+            if k.as_f64() == 0.0 { out.stat(&format!("arm.times.zero.raw.{}", if matches!(k, FV::F(_)) { "F" } else { "I" })); return matches!(k, FV::F(_)); }
+            let b = c13_raw_arm_stats(out, x, st);
+            out.stat(&format!("arm.tpos.raw.{}", kk(b, k)));
+            b || matches!(k, FV::F(_))
+        }
+        FVS::Next(x) | FVS::Prev(x) => {
+            let b = c13_raw_arm_stats(out, x, st);
+            let has_iv = x.max_var().map_or(false, |u| matches!(st[u], VState::F(..))) && !matches!(affine(x, st, &mut Out::default()), Some(Aff { var: None, .. }));
+            let nm = if matches!(v, FVS::Next(_)) { "next" } else { "prev" };
+            out.stat(&format!("arm.{nm}.raw.{}", if b && has_iv { "ValF.interval-step" } else if b { "ValF.unchanged" } else { "ValI.plus-minus-one" }));
+            b
+        }
+    }
+}
+
+/// (a) `view.mm`: min/max of the view equal min/max of f over the variable's bounds
+fn oracle_c13_mm(out: &mut Out, l: usize, line: &str, v: &FVS, st: &[VState], rmin: Val, rmax: Val, rfloat: bool) {
+    if v.depth() == 0 {
+        return;
+    }
+    let Some(f) = affine(v, st, out) else { return };
+    out.stat("c13.mm.checked");
+    c13_raw_arm_stats(out, v, st);
+    if rfloat != f.is_float {
+        out.fail(l, "C13", "-", format!("{line}: result_type float={rfloat}, expected {}", f.is_float));
+    }
+    let (Some(gmin), Some(gmax)) = (val_ex(rmin), val_ex(rmax)) else { return };
+    let (xlo, xhi) = match f.var {
+        None => (Ex::zero(), Ex::zero()),
+        Some(u) => match &st[u] {
+            VState::F(lo, hi, _) => (exf(*lo), exf(*hi)),
+            VState::I(d) => (Ex::from_i64(*d.first().unwrap() as i64), Ex::from_i64(*d.last().unwrap() as i64)),
+        },
+    };
+    let (f1, f2) = (f.a.mul(&xlo).add(&f.b), f.a.mul(&xhi).add(&f.b));
+    let (emin, emax) = if f1.le(&f2) { (f1, f2) } else { (f2, f1) };
+    let xmag = xlo.abs().max(&xhi.abs()).approx();
+    let tol = f.t.add(&c13_rho(&f, xmag, 0.5));
+    // the exact kind of the reported value: an integer view reports ValI
+    if !f.is_float && !(matches!(rmin, Val::ValI(_)) && matches!(rmax, Val::ValI(_))) {
+        out.fail(l, "C13", "-", format!("{line}: an integer view reports a float bound"));
+    }
+    let dmin = gmin.sub(&emin).abs();
+    let dmax = gmax.sub(&emax).abs();
+    if dmin.gt(&tol) || dmax.gt(&tol) {
+        out.fail(l, "C13", c13_tag(&f), format!("{line}: view min/max = {:e}..{:e}, f over the bounds gives {:e}..{:e} (tolerance {:e})", gmin.approx(), gmax.approx(), emin.approx(), emax.approx(), tol.approx()));
+    } else if !dmin.is_zero() || !dmax.is_zero() {
+        out.stat("c13.mm.within-tolerance");
+    } else {
+        out.stat("c13.mm.exact");
+    }
+}
+
+/// which arms of the `match (bound, offset)` blocks of views.rs a `try_set_*` call walks through
+fn c13_arm_stats(out: &mut Out, v: &FVS, st: &[VState], bound_is_float: bool, is_min: bool) -> (bool, bool) {
+    let mut int_div_on_float = false;
+    let mut prev_int_on_float = false;
+    let op = if is_min { "min" } else { "max" };
+    fn is_float_view(v: &FVS, st: &[VState]) -> bool {
+        match v {
+            FVS::C(k) => matches!(k, FV::F(_)),
+            FVS::V(i) => matches!(st[*i], VState::F(..)),
+            FVS::Opp(x) | FVS::Next(x) | FVS::Prev(x) => is_float_view(x, st),
+            FVS::Plus(k, x) | FVS::TPos(k, x) | FVS::TNeg(k, x) => is_float_view(x, st) || matches!(k, FV::F(_)),
+            FVS::Times(k, x) => if k.as_f64() == 0.0 { matches!(k, FV::F(_)) } else { is_float_view(x, st) || matches!(k, FV::F(_)) },
+        }
+    }
+    fn has_step(v: &FVS, st: &[VState]) -> bool {
+        match v {
+            FVS::C(_) => false,
+            FVS::V(i) => matches!(st[*i], VState::F(..)),
+            FVS::Times(k, x) => k.as_f64() != 0.0 && has_step(x, st),
+            FVS::Opp(x) | FVS::Next(x) | FVS::Prev(x) | FVS::Plus(_, x) | FVS::TPos(_, x) | FVS::TNeg(_, x) => has_step(x, st),
+        }
+    }
+    let mut bf = bound_is_float;
+    let mut cur = v;
+    let mut flipped = false; // Opposite swaps min and max
+    loop {
+        let o = if is_min != flipped { "min" } else { "max" };
+        let _ = op;
+        let kk = |b: bool, k: &FV| format!("{}{}", if b { "F" } else { "I" }, if matches!(k, FV::F(_)) { "F" } else { "I" });
+        match cur {
+            FVS::C(k) => { out.stat(&format!("arm.val.set_{o}.{}", kk(bf, k))); break; }
+            FVS::V(i) => { out.stat(&format!("arm.var.set_{o}.{}{}", if matches!(st[*i], VState::F(..)) { "VarF" } else { "VarI" }, if bf { "ValF" } else { "ValI" })); break; }
+            FVS::Opp(x) => { out.stat(&format!("arm.opp.set_{o}.{}", if bf { "F" } else { "I" })); flipped = !flipped; cur = x; }
+            FVS::Plus(k, x) => { out.stat(&format!("arm.plus.set_{o}.{}", kk(bf, k))); bf = bf || matches!(k, FV::F(_)); cur = x; }
+            FVS::TPos(k, x) => {
+                out.stat(&format!("arm.tpos.set_{o}.{}", kk(bf, k)));
+                if !bf && matches!(k, FV::I(_)) && is_float_view(x, st) { int_div_on_float = true; }
+                bf = bf || matches!(k, FV::F(_));
+                cur = x;
+            }
+            FVS::TNeg(k, x) => {
+                // TimesPos<Opposite<V>>
+                out.stat(&format!("arm.tneg.set_{o}.{}", kk(bf, k)));
+                if !bf && matches!(k, FV::I(_)) && is_float_view(x, st) { int_div_on_float = true; }
+                bf = bf || matches!(k, FV::F(_));
+                flipped = !flipped;
+                cur = x;
+            }
+            FVS::Times(k, x) => {
+                let kv = k.as_f64();
+                if kv == 0.0 {
+                    out.stat(&format!("arm.times.zero.set_{o}.{}", kk(bf, k)));
+                    break;
+                } else if kv < 0.0 {
+                    out.stat(&format!("arm.times.neg.set_{o}.{}", kk(bf, k)));
+                    flipped = !flipped;
+                } else {
+                    out.stat(&format!("arm.times.pos.set_{o}.{}", kk(bf, k)));
+                }
+                if !bf && matches!(k, FV::I(_)) && is_float_view(x, st) { int_div_on_float = true; }
+                bf = bf || matches!(k, FV::F(_));
+                cur = x;
+            }
+            FVS::Next(x) | FVS::Prev(x) => {
+                let nm = if matches!(cur, FVS::Next(_)) { "next" } else { "prev" };
+                let fv = is_float_view(x, st);
+                let hs = has_step(x, st);
+                let arm = match (bf, fv, hs, nm) {
+                    (false, true, true, "next") => { bf = true; "ValI-on-float-view.step" }
+                    (false, true, false, "next") => { bf = true; "ValI-on-float-view.nostep" }
+                    (false, true, _, _) => { prev_int_on_float = true; "ValI-on-float-view.plus-one" }
+                    (false, _, _, _) => "ValI.plus-minus-one",
+                    (true, _, true, _) => "ValF.step",
+                    (true, false, false, _) => "ValF.int-view.shift-one",
+                    (true, true, false, _) => "ValF.float-view-nostep.unchanged",
+                };
+                out.stat(&format!("arm.{nm}.set_{o}.{arm}"));
+                cur = x;
+            }
+        }
+    }
+    (int_div_on_float, prev_int_on_float)
+}
+
+/// (b) `ctx.min/max V m` through a non-trivial view
+fn oracle_c13_ctx(out: &mut Out, l: usize, line: &str, is_min: bool, v: &FVS, m: FV, before: &[VState], after: &[VState], ok: bool) {
+    if v.depth() == 0 {
+        return;
+    }
+    let (int_div, prev_int) = c13_arm_stats(out, v, before, matches!(m, FV::F(_)), is_min);
+    let mf = m.as_f64();
+    if !mf.is_finite() {
+        return;
+    }
+    let Some(f) = affine(v, before, out) else { return };
+    // known findings, decided on the path the bound takes through the view:
+    //  * an integer bound divided by an integer scale above a FLOAT view uses integer division;
+    //  * `Prev` adds 1 to an integer bound even when the view below is a float view
+    let tag = if int_div { "timespos-int-division-on-float-view" } else if prev_int { "prev-int-bound-on-float-view-shifts-by-one" } else { c13_tag(&f) };
+    let em = exf(mf);
+    let what = if is_min { "min" } else { "max" };
+    // does the image `y` satisfy the bound with slack `sl` (strictly inside) / violate it by `sl`
+    let sat = |y: &Ex, sl: &Ex| if is_min { y.ge(&em.add(sl)) } else { y.le(&em.sub(sl)) };
+    let viol = |y: &Ex, sl: &Ex| if is_min { y.lt(&em.sub(sl)) } else { y.gt(&em.add(sl)) };
+    match f.var {
+        None => {
+            out.stat("c13.ctx.const");
+            let rho = c13_rho(&f, 0.0, mf);
+            if ok && viol(&f.b, &rho) {
+                out.fail(l, "C13", tag, format!("{line}: constant view {:e} violates the bound but the call succeeded", f.b.approx()));
+            }
+            if !ok && sat(&f.b, &rho) {
+                out.fail(l, "C13", tag, format!("{line}: constant view {:e} satisfies the bound but the call failed", f.b.approx()));
+            }
+        }
+        Some(u) => match (&before[u], &after[u]) {
+            (VState::I(d), VState::I(d2)) => {
+                out.stat("c13.ctx.int-var");
+                let xmag = d.iter().map(|w| w.unsigned_abs()).max().unwrap_or(0) as f64;
+                let rho = c13_rho(&f, xmag, mf);
+                out.stat(if rho.is_zero() { "c13.ctx.int-var.exact" } else { "c13.ctx.int-var.float-consts" });
+                let img = |w: i32| f.a.mul(&Ex::from_i64(w as i64)).add(&f.b);
+                let must_keep: Vec<i32> = d.iter().cloned().filter(|w| sat(&img(*w), &rho)).collect();
+                let must_go: Vec<i32> = d.iter().cloned().filter(|w| viol(&img(*w), &rho)).collect();
+                if !ok {
+                    if !must_keep.is_empty() {
+                        out.fail(l, "C13", tag, format!("{line}: failed although the values {must_keep:?} of {d:?} have images satisfying the bound"));
+                    }
+                    return;
+                }
+                if let Some(w) = must_keep.iter().find(|w| !d2.contains(w)) {
+                    out.fail(l, "C13", tag, format!("{line}: value {w} of {d:?} removed although its image {:e} satisfies the {what} bound {mf:e}; left {d2:?}", img(*w).approx()));
+                }
+                if let Some(w) = must_go.iter().find(|w| d2.contains(w)) {
+                    out.fail(l, "C13", tag, format!("{line}: value {w} of {d:?} kept although its image {:e} violates the {what} bound {mf:e}; left {d2:?}", img(*w).approx()));
+                }
+            }
+            (VState::F(lo, hi, s), VState::F(nlo, nhi, _)) => {
+                out.stat("c13.ctx.float-var");
+                let xmag = lo.abs().max(hi.abs());
+                let rho = c13_rho(&f, xmag, mf);
+                // one step inside the bound (in x-space one step = |a|*step in the value space)
+                let slack = f.a.abs().mul(&exf(*s)).add(&rho);
+                let img = |x: f64| f.a.mul(&exf(x)).add(&f.b);
+                // f is monotone: the survivors form an interval that contains the end with the
+                // best image, if any
+                let incr = !f.a.abs().is_zero() && f.a.ge(&Ex::zero());
+                let best = if incr == is_min { *hi } else { *lo };
+                let exists = sat(&img(best), &slack);
+                if !ok {
+                    out.stat("c13.ctx.float-var.fail");
+                    if exists {
+                        out.fail(l, "C13", tag, format!("{line}: failed although x = {best:e} of [{lo:e},{hi:e}] has the image {:e}, more than one step inside the {what} bound {mf:e}", img(best).approx()));
+                    }
+                    return;
+                }
+                if !exists {
+                    out.stat("c13.ctx.float-var.no-survivor");
+                    return;
+                }
+                out.stat("c13.ctx.float-var.survivors");
+                // the end of the new interval on the cut side must not have cut into the survivors
+                let lost = if incr == is_min {
+                    // survivors = [x_T, hi]: need nhi >= hi and (nlo <= lo or img(nlo) not strictly inside)
+                    nhi < hi || (nlo > lo && sat(&img(*nlo), &slack) && {
+                        // nlo itself survives; a smaller survivor exists iff the previous point does:
+                        // check the point one ulp below nlo
+                        let p = UlpUtils::prev_float(*nlo);
+                        p >= *lo && sat(&img(p), &slack)
+                    })
+                } else {
+                    nlo > lo || (nhi < hi && sat(&img(*nhi), &slack) && {
+                        let p = UlpUtils::next_float(*nhi);
+                        p <= *hi && sat(&img(p), &slack)
+                    })
+                };
+                if lost {
+                    out.fail(l, "C13", tag, format!("{line}: [{lo:e},{hi:e}] step {s:e} -> [{nlo:e},{nhi:e}]: values whose image is more than one step inside the {what} bound {mf:e} were removed (f = {:e}*x + {:e})", f.a.approx(), f.b.approx()));
+                }
+            }
+            _ => {}
+        },
     }
 }
 
@@ -1162,7 +1537,7 @@ pub fn apply(fc: &mut FCase, out: &mut Out, line: &str) {
         "fl.ctx.min" | "fl.ctx.max" | "fl.view.mm" => {
             let mut t = ws[1..].iter();
             let Some(v) = FVS::parse(&mut t) else { out.emit(line, "bad-op"); return };
-            if v.depth() > 2 || v.max_var().map_or(false, |m| m >= fc.ids.len()) {
+            if v.depth() > 3 || v.max_var().map_or(false, |m| m >= fc.ids.len()) {
                 out.emit(line, "bad-op");
                 return;
             }
@@ -1317,7 +1692,8 @@ fn small_fv(r: &mut Rng, step: f64) -> FV {
 
 fn gen_view(r: &mut Rng, x: usize, step: f64, depth: usize) -> FVS {
     if depth == 0 {
-        return FVS::V(x);
+        // now and then a constant leaf (the `Val` view)
+        return if r.chance(1, 25) { FVS::C(small_fv(r, step)) } else { FVS::V(x) };
     }
     let inner = Box::new(gen_view(r, x, step, depth - 1));
     let nz = |r: &mut Rng, neg: bool| -> FV {
@@ -1434,8 +1810,8 @@ fn case_ctx(out: &mut Out, r: &mut Rng, id: &str) {
     add_int_var(&mut fc, out, &d);
     let n = r.range(1, 6);
     for _ in 0..n {
-        let x = if r.chance(4, 5) { 0 } else { 1 };
-        let depth = match r.below(10) { 0..=5 => 0, 6..=8 => 1, _ => 2 };
+        let x = if r.chance(3, 4) { 0 } else { 1 };
+        let depth = match r.below(20) { 0..=7 => 0, 8..=13 => 1, 14..=17 => 2, _ => 3 };
         let v = gen_view(r, x, step, depth);
         let (clo, chi) = match fc.state(0) { VState::F(a, b, _) => (a, b), _ => (lo, hi) };
         let m = if x == 0 && depth == 0 {
@@ -1447,14 +1823,21 @@ fn case_ctx(out: &mut Out, r: &mut Rng, id: &str) {
             }
         } else if x == 1 && depth == 0 {
             if r.chance(1, 3) { FV::I(r.range(-8, 8) as i32) } else { FV::F(r.range(-16, 16) as f64 * 0.5 + if r.chance(1, 3) { 0.25 } else { 0.0 }) }
-        } else if x == 0 {
-            match r.below(3) {
-                0 => FV::F(gen_bound(r, clo, chi, step)),
-                1 => FV::F(gen_bound(r, clo, chi, step) * *r.pick(&[0.5, 2.0, -1.0, 1.0])),
-                _ => FV::I((clo + (chi - clo) * 0.5).round().clamp(-1.0e9, 1.0e9) as i32 + r.range(-2, 2) as i32),
-            }
         } else {
-            small_fv(r, 0.5)
+            // a bound in the VALUE space of the view: the image of a point near the current domain
+            // (f64 evaluation of the exact affine form), nudged by fractions of a step
+            let st = fc.states();
+            let (a, b) = match affine(&v, &st, &mut Out::default()) { Some(f) => (f.a.approx(), f.b.approx()), None => (1.0, 0.0) };
+            let (xp, unit) = if x == 0 {
+                (gen_bound(r, clo, chi, step), step)
+            } else {
+                let d = match &st[1] { VState::I(d) => d.clone(), _ => vec![0] };
+                ((*r.pick(&d) + r.range(-1, 1) as i32) as f64, 1.0)
+            };
+            let img = a * xp + b;
+            let nudge = a.abs().max(if a == 0.0 { 1.0 } else { 0.0 }) * unit * *r.pick(&[0.0, 0.0, 0.5, -0.5, 1.0, -1.0, 0.25, -0.25, 1.5, -1.5, 3.0, -3.0, 1e-9, -1e-9]);
+            let mv = img + nudge;
+            if r.chance(1, 4) && mv.abs() < 1.0e9 { FV::I(mv.round() as i32) } else { FV::F(mv) }
         };
         if r.chance(1, 3) {
             apply(&mut fc, out, &format!("fl.view.mm {}", v.tokens()));
@@ -1709,6 +2092,173 @@ enum ARow {
     VEq(usize, usize),
     CLe(usize, f64),
     CGe(usize, f64),
+    /// a fluent comparison of two linear expressions (repeated variables, literals on both sides)
+    Ex(XRow),
+}
+
+/// a literal of a fluent expression: `int(k)` or `float(k)`
+#[derive(Clone, Copy, Debug)]
+enum Lit {
+    I(i32),
+    F(f64),
+}
+impl Lit {
+    fn val(&self) -> sp::Val { match self { Lit::I(i) => sp::int(*i), Lit::F(f) => sp::float(*f) } }
+    fn f(&self) -> f64 { match self { Lit::I(i) => *i as f64, Lit::F(f) => *f } }
+    fn is_f(&self) -> bool { matches!(self, Lit::F(_)) }
+    fn tok(&self) -> String { match self { Lit::I(i) => format!("i {i}"), Lit::F(f) => format!("f {}", sf(*f)) } }
+}
+/// a term of a fluent expression side
+#[derive(Clone, Copy, Debug)]
+enum XT {
+    V(usize),      // x
+    M(usize, Lit), // x.mul(lit)
+    L(Lit, usize), // lit * x
+    K(Lit),        // lit
+}
+/// `lhs op rhs`, both sides folded left to right with `.add` / `.sub` (`true` = subtracted; the
+/// first term of a side is never subtracted); op: 0 le, 1 lt, 2 ge, 3 gt, 4 eq, 5 ne
+#[derive(Clone, Debug)]
+struct XRow {
+    op: u8,
+    lhs: Vec<(bool, XT)>,
+    rhs: Vec<(bool, XT)>,
+}
+fn xt_var(t: &XT) -> Option<usize> {
+    match t { XT::V(x) | XT::M(x, _) | XT::L(_, x) => Some(*x), XT::K(_) => None }
+}
+const XOPS: [&str; 6] = ["le", "lt", "ge", "gt", "eq", "ne"];
+
+impl XRow {
+    fn side_tok(t: &[(bool, XT)]) -> String {
+        let mut s = t.len().to_string();
+        for (sub, x) in t {
+            s.push_str(if *sub { " - " } else { " + " });
+            s.push_str(&match x {
+                XT::V(x) => format!("v {x}"),
+                XT::M(x, l) => format!("m {x} {}", l.tok()),
+                XT::L(l, x) => format!("l {} {x}", l.tok()),
+                XT::K(l) => format!("k {}", l.tok()),
+            });
+        }
+        s
+    }
+    fn tok(&self) -> String {
+        format!("ex {} {} {}", XOPS[self.op as usize], XRow::side_tok(&self.lhs), XRow::side_tok(&self.rhs))
+    }
+    fn parse(w: &[&str]) -> Option<XRow> {
+        let opn = *w.get(1)?;
+        let op = XOPS.iter().position(|o| *o == opn)? as u8;
+        let mut i = 2;
+        let lit = |w: &[&str], i: &mut usize| -> Option<Lit> {
+            let k = *w.get(*i)?;
+            let v = *w.get(*i + 1)?;
+            *i += 2;
+            match k { "i" => v.parse().ok().map(Lit::I), "f" => pf(v).map(Lit::F), _ => None }
+        };
+        let side = |i: &mut usize| -> Option<Vec<(bool, XT)>> {
+            let n: usize = w.get(*i)?.parse().ok()?;
+            *i += 1;
+            let mut v = vec![];
+            for _ in 0..n {
+                let sub = *w.get(*i)? == "-";
+                let kind = *w.get(*i + 1)?;
+                *i += 2;
+                let t = match kind {
+                    "v" => { let x = w.get(*i)?.parse().ok()?; *i += 1; XT::V(x) }
+                    "m" => { let x = w.get(*i)?.parse().ok()?; *i += 1; XT::M(x, lit(w, i)?) }
+                    "l" => { let l = lit(w, i)?; let x = w.get(*i)?.parse().ok()?; *i += 1; XT::L(l, x) }
+                    "k" => XT::K(lit(w, i)?),
+                    _ => return None,
+                };
+                v.push((sub, t));
+            }
+            Some(v)
+        };
+        let lhs = side(&mut i)?;
+        let rhs = side(&mut i)?;
+        Some(XRow { op, lhs, rhs })
+    }
+    fn expr(ids: &[sp::VarId], t: &[(bool, XT)]) -> sp::ExprBuilder {
+        let one = |x: &XT| -> sp::ExprBuilder {
+            match x {
+                XT::V(x) => sp::ExprBuilder::from(ids[*x]),
+                XT::M(x, l) => ids[*x].mul(l.val()),
+                XT::L(l, x) => sp::ExprBuilder::from(l.val()).mul(ids[*x]),
+                XT::K(l) => sp::ExprBuilder::from(l.val()),
+            }
+        };
+        let mut e = one(&t[0].1);
+        for (sub, x) in &t[1..] {
+            e = if *sub { e.sub(one(x)) } else { e.add(one(x)) };
+        }
+        e
+    }
+    /// exact merged linear form of `lhs - rhs`: coefficient per variable and the constant
+    fn linear(&self, nv: usize) -> (Vec<Ex>, Ex) {
+        let mut cs = vec![Ex::zero(); nv];
+        let mut k = Ex::zero();
+        for (neg_side, side) in [(false, &self.lhs), (true, &self.rhs)] {
+            for (i, (sub, t)) in side.iter().enumerate() {
+                let neg = neg_side != (*sub && i > 0);
+                let sg = |e: Ex| if neg { e.neg() } else { e };
+                match t {
+                    XT::V(x) => cs[*x] = cs[*x].add(&sg(Ex::from_i64(1))),
+                    XT::M(x, l) | XT::L(l, x) => cs[*x] = cs[*x].add(&sg(exf(l.f()))),
+                    XT::K(l) => k = k.add(&sg(exf(l.f()))),
+                }
+            }
+        }
+        (cs, k)
+    }
+    /// simulation of `try_extract_linear_form` / `try_convert_to_linear_ast` on the KINDS of the
+    /// coefficients: which arms of add/subtract_coefficients are evaluated (recorded in `stats`);
+    /// returns whether the row is lowered to `LinearInt`
+    fn lowering(&self, stats: &mut Vec<String>) -> bool {
+        let kk = |a: bool, b: bool| format!("{}{}", if a { "Float" } else { "Int" }, if b { "Float" } else { "Int" });
+        let mut sides: Vec<(Vec<(usize, bool)>, bool)> = vec![];
+        for side in [&self.lhs, &self.rhs] {
+            let mut vars: Vec<(usize, bool)> = vec![];
+            let mut konst = false; // Int(0)
+            for (i, (sub, t)) in side.iter().enumerate() {
+                let (tv, tk): (Option<(usize, bool)>, bool) = match t {
+                    XT::V(x) => (Some((*x, false)), false),
+                    // `mul` by the integer literal 1 is folded to the variable itself
+                    XT::M(x, l) | XT::L(l, x) => (Some((*x, l.is_f())), false),
+                    XT::K(l) => (None, l.is_f()),
+                };
+                if i == 0 {
+                    if let Some(v) = tv { vars.push(v); }
+                    konst = tk;
+                    continue;
+                }
+                let f = if *sub { "subtract_coefficients" } else { "add_coefficients" };
+                if let Some((x, isf)) = tv {
+                    if let Some(p) = vars.iter().position(|v| v.0 == x) {
+                        stats.push(format!("api.arm.{f}.side-merge.{}", kk(vars[p].1, isf)));
+                        vars[p].1 = vars[p].1 || isf;
+                    } else {
+                        vars.push((x, isf));
+                    }
+                }
+                stats.push(format!("api.arm.{f}.const.{}", kk(konst, tk)));
+                konst = konst || tk;
+            }
+            sides.push((vars, konst));
+        }
+        let (l, r) = (&sides[0], &sides[1]);
+        let mut all_ints = l.0.iter().all(|v| !v.1) && r.0.iter().all(|v| !v.1);
+        for (x, isf) in &r.0 {
+            if let Some(p) = l.0.iter().position(|v| v.0 == *x) {
+                stats.push(format!("api.arm.subtract_coefficients.cross-merge.{}", kk(l.0[p].1, *isf)));
+            }
+        }
+        stats.push(format!("api.arm.subtract_coefficients.cross-const.{}", kk(l.1, r.1)));
+        if l.1 || r.1 {
+            all_ints = false;
+        }
+        all_ints
+    }
 }
 
 #[derive(Clone, Debug)]
@@ -1737,6 +2287,7 @@ impl AModel {
             ARow::VEq(x, y) => format!("veq {x} {y}"),
             ARow::CLe(x, k) => format!("cle {x} {}", sf(*k)),
             ARow::CGe(x, k) => format!("cge {x} {}", sf(*k)),
+            ARow::Ex(x) => x.tok(),
         }).collect();
         format!("#flapi p={} style={} ; {} | {}", self.digits, self.style, vs.join(" ; "), rs.join(" ; "))
     }
@@ -1774,6 +2325,7 @@ impl AModel {
                 "veq" => rs.push(ARow::VEq(u(1)?, u(2)?)),
                 "cle" => rs.push(ARow::CLe(u(1)?, pf(w.get(2)?)?)),
                 "cge" => rs.push(ARow::CGe(u(1)?, pf(w.get(2)?)?)),
+                "ex" => rs.push(ARow::Ex(XRow::parse(&w)?)),
                 _ => return None,
             }
         }
@@ -1823,6 +2375,15 @@ impl AModel {
                 (ARow::CGe(x, k), 0) => m.lin_le(&[-1.0], &[ids[*x]], -*k),
                 (ARow::CLe(x, k), 2) => sp::le(&mut m, ids[*x], sp::float(*k)),
                 (ARow::CGe(x, k), 2) => sp::ge(&mut m, ids[*x], sp::float(*k)),
+                (ARow::Ex(x), st) => {
+                    let (l, r) = (XRow::expr(&ids, &x.lhs), XRow::expr(&ids, &x.rhs));
+                    if st == 2 {
+                        match x.op { 0 => sp::le(&mut m, l, r), 1 => sp::lt(&mut m, l, r), 2 => sp::ge(&mut m, l, r), 3 => sp::gt(&mut m, l, r), 4 => sp::eq(&mut m, l, r), _ => sp::ne(&mut m, l, r) }
+                    } else {
+                        let c = match x.op { 0 => l.le(r), 1 => l.lt(r), 2 => l.ge(r), 3 => l.gt(r), 4 => l.eq(r), _ => l.ne(r) };
+                        m.new(c);
+                    }
+                }
                 (ARow::CLe(x, k), _) => { m.new(ids[*x].le(sp::float(*k))); }
                 (ARow::CGe(x, k), _) => { m.new(ids[*x].ge(sp::float(*k))); }
             }
@@ -1835,12 +2396,32 @@ impl AModel {
             ARow::VLe(x, y) | ARow::VLt(x, y) | ARow::VNe(x, y) | ARow::VEq(x, y) => vec![(1.0, *x), (-1.0, *y)],
             ARow::CLe(x, _) => vec![(1.0, *x)],
             ARow::CGe(x, _) => vec![(-1.0, *x)],
+            ARow::Ex(x) => x.linear(self.vars.len()).0.iter().enumerate().map(|(i, c)| (c.approx(), i)).filter(|(c, _)| *c != 0.0).collect(),
         }
     }
     /// does the value vector `v` satisfy row `r` within the C06 tolerance (exact arithmetic);
     /// returns the violation description
     fn check_row(&self, r: &ARow, v: &[f64]) -> Option<String> {
         let step = precision_to_step_size(self.digits);
+        if let ARow::Ex(x) = r {
+            let (cs, k) = x.linear(self.vars.len());
+            let mut d = k;
+            let mut tol = Ex::zero();
+            for (i, c) in cs.iter().enumerate() {
+                d = d.add(&c.mul(&exf(v[i])));
+                let t = (3.0 * step).max(1e-5 * v[i].abs());
+                tol = tol.add(&c.abs().mul(&exf(t).add(&exf(step).add(&exf(step).scale2(-1)))));
+            }
+            let bad = match x.op {
+                0 => d.gt(&tol),
+                1 => d.ge(&tol),
+                2 => d.neg().gt(&tol),
+                3 => d.neg().ge(&tol),
+                4 => d.abs().gt(&tol),
+                _ => d.is_zero(),
+            };
+            return if bad { Some(format!("lhs-rhs = {:e}, tolerance {:e}", d.approx(), tol.approx())) } else { None };
+        }
         let terms = self.row_vars(r);
         let mut lhs = Ex::zero();
         let mut tol = Ex::zero();
@@ -1861,6 +2442,7 @@ impl AModel {
             ARow::VLt(..) => d.ge(&tol),
             ARow::Eq(..) | ARow::VEq(..) => d.abs().gt(&tol),
             ARow::VNe(..) => d.is_zero(),
+            ARow::Ex(..) => false,
         };
         if bad { Some(format!("lhs-rhs = {:e}, tolerance {:e}", d.approx(), tol.approx())) } else { None }
     }
@@ -1875,12 +2457,57 @@ impl AModel {
                 }
                 sum.sub(&exf(*c)).is_zero()
             }
+            ARow::Ex(x) => {
+                let (cs, k) = x.linear(self.vars.len());
+                let mut d = k;
+                for (i, c) in cs.iter().enumerate() {
+                    d = d.add(&c.mul(&exf(w(i))));
+                }
+                d.is_zero()
+            }
             _ => true,
+        }
+    }
+    /// a float variable occurs syntactically in the expression row
+    fn ex_has_float_var(&self, x: &XRow) -> bool {
+        x.lhs.iter().chain(&x.rhs).any(|(_, t)| xt_var(t).map_or(false, |v| self.is_float(v)))
+    }
+    /// does the row hold at the witness with a margin of at least `10 * step * sum|c|` (exact)
+    fn ex_holds_at_witness(&self, x: &XRow) -> bool {
+        let step = precision_to_step_size(self.digits);
+        let (cs, k) = x.linear(self.vars.len());
+        let mut d = k;
+        let mut sum_abs = Ex::zero();
+        for (i, c) in cs.iter().enumerate() {
+            d = d.add(&c.mul(&exf(self.wit(i))));
+            sum_abs = sum_abs.add(&c.abs());
+        }
+        let mg = sum_abs.mul(&exf(10.0 * step)).add(&exf(1e-12));
+        match x.op {
+            0 | 1 => d.neg().ge(&mg),
+            2 | 3 => d.ge(&mg),
+            4 => d.abs().le(&exf(1e-9).mul(&sum_abs.add(&Ex::from_i64(1)))),
+            _ => d.abs().ge(&mg),
         }
     }
     fn row_tag(&self, r: &ARow) -> &'static str {
         let terms = self.row_vars(r);
         let all_int = terms.iter().filter(|(c, _)| c.abs() >= 1e-12).all(|(_, x)| !self.is_float(*x));
+        if let ARow::Ex(x) = r {
+            let any_float = terms.iter().any(|(_, v)| self.is_float(*v));
+            let lowered_int = x.lowering(&mut vec![]);
+            return if lowered_int && self.ex_has_float_var(x) {
+                // all literals are `int(..)`: lowered to an INTEGER linear row (IntLinLe/Eq/Ne), which
+                // returns as soon as it meets a float variable (even one whose coefficients cancel)
+                "float-row-lowered-to-intlin"
+            } else if !lowered_int && x.op == 5 && any_float {
+                "float-ne-ignored"
+            } else if !lowered_int && x.op < 4 && all_int {
+                "int-var-in-float-linear"
+            } else {
+                "-"
+            };
+        }
         match r {
             ARow::VNe(x, y) if self.is_float(*x) || self.is_float(*y) => "float-ne-ignored",
             ARow::Le(..) | ARow::CLe(..) | ARow::CGe(..) | ARow::VLe(..) if all_int => "int-var-in-float-linear",
@@ -1914,7 +2541,7 @@ fn api_run(out: &mut Out, am: &AModel) {
             hooks::set_root_lp_disabled(false);
             // an equality row that holds at the witness only up to the f64 rounding of its
             // constant is outside the strict hypothesis of C07 ("every equality exactly")
-            let inexact = am.rows.iter().any(|r| matches!(r, ARow::Eq(..)) && !am.eq_exact_at_witness(r));
+            let inexact = am.rows.iter().any(|r| matches!(r, ARow::Eq(..) | ARow::Ex(XRow { op: 4, .. })) && !am.eq_exact_at_witness(r));
             // a float equality row that also contains an integer variable: the integer bounds are
             // ceil/floor of a quotient that carries the float rounding / quantization error, with
             // no tolerance (known finding `float-eq-int-var-rounding`)
@@ -1923,12 +2550,33 @@ fn api_run(out: &mut Out, am: &AModel) {
                     let nz: Vec<usize> = cs.iter().zip(xs).filter(|(c, _)| c.abs() >= 1e-12).map(|(_, x)| *x).collect();
                     nz.iter().any(|x| am.is_float(*x)) && nz.iter().any(|x| !am.is_float(*x))
                 }
+                // a fluent equality lowered to FloatLinEq that contains an integer variable (its
+                // merged float coefficients carry rounding, the integer arm has no tolerance)
+                ARow::Ex(x) if x.op == 4 && !x.lowering(&mut vec![]) => {
+                    x.lhs.iter().chain(&x.rhs).any(|(_, t)| xt_var(t).map_or(false, |v| !am.is_float(v)))
+                }
                 _ => false,
             });
             // `x.lt(y)` between a float and an integer variable is lowered to the INTEGER row
             // x - y <= -1 (strictness of one unit): points with 0 < y - x < 1 are lost
             let mixed_strict = am.rows.iter().any(|r| matches!(r, ARow::VLt(x, y) if am.is_float(*x) != am.is_float(*y) && (am.wit(*y) - am.wit(*x)) < 1.0));
-            let tag = if again { "root-lp" } else if mixed_eq { "float-eq-int-var-rounding" } else if mixed_strict { "mixed-strict-cmp-int-lowered" } else if inexact { "float-eq-inexact-witness" } else { "-" };
+            // an all-`int(..)`-literal fluent row over a float variable is posted as an INTEGER linear
+            // row: with one float variable (or integer others) it tightens the float variable with
+            // integer division (x >= 6x + 7 becomes x <= -2 instead of x <= -1.4)
+            // attribution: the model solves once those rows are written with `float(..)` literals
+            let ex_intlin = am.rows.iter().any(|r| matches!(r, ARow::Ex(x) if x.lowering(&mut vec![]) && am.ex_has_float_var(x))) && {
+                let mut am2 = am.clone();
+                for r in am2.rows.iter_mut() {
+                    if let ARow::Ex(x) = r {
+                        for (_, t) in x.lhs.iter_mut().chain(x.rhs.iter_mut()) {
+                            let fl = |l: &Lit| Lit::F(l.f());
+                            *t = match t { XT::V(v) => XT::M(*v, Lit::F(1.0)), XT::M(v, l) => XT::M(*v, fl(l)), XT::L(l, v) => XT::L(fl(l), *v), XT::K(l) => XT::K(fl(l)) };
+                        }
+                    }
+                }
+                solve(&am2).map(|(r, _)| r.is_ok()).unwrap_or(false)
+            };
+            let tag = if again { "root-lp" } else if ex_intlin { "float-row-lowered-to-intlin" } else if mixed_eq { "float-eq-int-var-rounding" } else if mixed_strict { "mixed-strict-cmp-int-lowered" } else if inexact { "float-eq-inexact-witness" } else { "-" };
             out.fail(l, "C07", tag, "solve() = NoSolution although the witness point satisfies every row with margin".to_string());
         }
         Err(e) => {
@@ -1977,6 +2625,79 @@ fn api_run(out: &mut Out, am: &AModel) {
     }
 }
 
+/// a fluent comparison of two linear expressions around the witness: the same variable may occur
+/// on both sides and several times on one side, with `int(..)` and `float(..)` literals mixed,
+/// literals on both sides, subtracted terms; the last literal of the right side is chosen so that
+/// the row holds at the witness with margin
+fn gen_xrow(r: &mut Rng, nv: usize, wv: &dyn Fn(usize) -> f64, step: f64) -> XRow {
+    let lit = |r: &mut Rng, want_f: Option<bool>| -> Lit {
+        let f = want_f.unwrap_or_else(|| r.chance(1, 2));
+        if f {
+            Lit::F(*r.pick(&[0.5, 2.5, -1.5, 0.1, 3.0, -0.25, 1.0, 2.0, -2.0, 0.3]))
+        } else {
+            Lit::I(*r.pick(&[1, 2, 3, -1, -2, 4, -3, 1, 2]))
+        }
+    };
+    let all_int_lits = r.chance(1, 5);
+    let kind = |r: &mut Rng| if all_int_lits { Some(false) } else if r.chance(1, 8) { Some(true) } else { None };
+    let x0 = r.below(nv as u64) as usize;
+    let term = |r: &mut Rng, x: usize| -> XT {
+        let k = kind(r);
+        let l = lit(r, k);
+        match r.below(6) {
+            0 => XT::V(x),
+            1 | 2 | 3 => XT::M(x, l),
+            4 => XT::L(l, x),
+            _ => XT::K(l),
+        }
+    };
+    let pickx = |r: &mut Rng| if r.chance(1, 2) { x0 } else { r.below(nv as u64) as usize };
+    let mut lhs: Vec<(bool, XT)> = vec![(false, match term(r, x0) { XT::K(_) => XT::V(x0), t => t })];
+    for _ in 0..r.range(0, 2) {
+        let x = pickx(r);
+        lhs.push((r.chance(1, 3), term(r, x)));
+    }
+    // the same variable on the other side, with the other kind of literal now and then
+    let first_r = match (r.below(3), all_int_lits) {
+        (0, _) => XT::V(x0),
+        (1, false) => XT::M(x0, lit(r, Some(!matches!(lhs[0].1, XT::M(_, Lit::F(_)) | XT::L(Lit::F(_), _))))),
+        _ => { let x = pickx(r); match term(r, x) { XT::K(_) => XT::V(x), t => t } }
+    };
+    let mut rhs: Vec<(bool, XT)> = vec![(false, first_r)];
+    for _ in 0..r.range(0, 2) {
+        let x = pickx(r);
+        rhs.push((r.chance(1, 3), term(r, x)));
+    }
+    let op = *r.pick(&[0u8, 0, 1, 2, 2, 3, 4, 5]);
+    let mut row = XRow { op, lhs, rhs };
+    // d = lhs(w) - rhs(w) so far; close the row with a literal K on the right: lhs op rhs + K
+    let (cs, k) = row.linear(nv);
+    let mut d = k;
+    let mut sum_abs = 0.0;
+    let mut mag = 0.0;
+    for (i, c) in cs.iter().enumerate() {
+        d = d.add(&c.mul(&exf(wv(i))));
+        sum_abs += c.abs().approx();
+        mag += c.abs().approx() * wv(i).abs();
+    }
+    let d = d.approx();
+    let margin = step * sum_abs.max(1.0) * r.range(10, 200) as f64 + mag * 1e-9 + 1e-9;
+    let kf = match op {
+        0 | 1 => d + margin,      // lhs <= rhs + K
+        2 | 3 => d - margin,      // lhs >= rhs + K
+        4 => d,
+        _ => d + margin * if r.chance(1, 2) { 1.0 } else { -1.0 },
+    };
+    let use_int = (all_int_lits || r.chance(1, 4)) && kf.abs() < 1.0e8;
+    let klit = if use_int {
+        Lit::I(match op { 0 | 1 => kf.ceil() as i32 + if op == 1 && kf.ceil() == kf { 1 } else { 0 }, 2 | 3 => kf.floor() as i32 - if op == 3 && kf.floor() == kf { 1 } else { 0 }, _ => kf.round() as i32 })
+    } else {
+        Lit::F(kf)
+    };
+    row.rhs.push((false, XT::K(klit)));
+    row
+}
+
 fn case_api(out: &mut Out, r: &mut Rng, id: &str) {
     out.case(id);
     let digits = *r.pick(&[2, 3, 4, 6, 6, 6]);
@@ -2005,10 +2726,20 @@ fn case_api(out: &mut Out, r: &mut Rng, id: &str) {
     let wv = |x: usize| match vars[x] { AVar::F(_, _, w) => w, AVar::I(_, _, w) => w as f64 };
     let mut rows = vec![];
     for _ in 0..r.range(1, 4) {
-        let kind = r.below(12);
+        let kind = r.below(16);
         let x = r.below(nv as u64) as usize;
         let y = r.below(nv as u64) as usize;
         match kind {
+            12..=15 => {
+                let row = gen_xrow(r, nv, &wv, step);
+                let probe = AModel { digits, style: 0, vars: vars.clone(), rows: vec![] };
+                if probe.ex_holds_at_witness(&row) {
+                    rows.push(ARow::Ex(row));
+                } else {
+                    out.stat("api.ex.rejected-not-holding-at-witness");
+                    rows.push(ARow::CLe(x, wv(x) + step * r.range(10, 400) as f64));
+                }
+            }
             0..=4 => {
                 let n = r.range(1, nv as i64) as usize;
                 let mut xs: Vec<usize> = (0..nv).collect();
@@ -2057,6 +2788,21 @@ fn case_api(out: &mut Out, r: &mut Rng, id: &str) {
     for row in &am.rows {
         if matches!(row, ARow::Eq(..)) {
             out.stat(if am.eq_exact_at_witness(row) { "api.eq-row.exact" } else { "api.eq-row.inexact" });
+        }
+        if let ARow::Ex(x) = row {
+            let mut st = vec![];
+            let li = x.lowering(&mut st);
+            for k in st {
+                out.stat(&k);
+            }
+            out.stat(if li { "api.ex.lowered.LinearInt" } else { "api.ex.lowered.LinearFloat" });
+            out.stat(&format!("api.ex.op.{}", XOPS[x.op as usize]));
+            let (cs, _) = x.linear(am.vars.len());
+            let both = x.lhs.iter().any(|(_, t)| x.rhs.iter().any(|(_, u)| xt_var(t).is_some() && xt_var(t) == xt_var(u)));
+            if both { out.stat("api.ex.same-var-both-sides"); }
+            if cs.iter().enumerate().any(|(i, c)| c.is_zero() && x.lhs.iter().chain(&x.rhs).any(|(_, t)| xt_var(t) == Some(i))) {
+                out.stat("api.ex.var-cancels");
+            }
         }
     }
     api_run(out, &am);
